@@ -67,7 +67,7 @@ received only event 2, the queue is empty, and `Length()` says 1 forever -/
 theorem C20_witness_outcome :
     let c := runP (init .pooled witnessProgs) witnessSched
     allDone c = true ∧
-    c.threads.map (·.hist) = [[(.sig 1, .ok)], [(.sig 2, .ok)], [(.iter, .items [2])]] ∧
+    c.threads.map (·.hist) = [[(.sig 1, .ok)], [(.sig 2, .ok)], [(.iter, .items [2] false)]] ∧
     (seqDrain 5 c).1 = [] ∧ c.len = 1 := by decide
 
 theorem C20_refuted : ¬ C20_full := fun h => C20_queue_refuted h.1
